@@ -5,6 +5,7 @@ from ..rules import timeouts as T
 from ..rules import scenario as SC
 from ..rules import broken as B
 from ..rules import contain as C
+from ..rules import reusable as X
 
 EXPLANATION = (
     "Static analysis. Decides: shutdown() flags under the lock, wakes, joins only conditionally on `wait` under the lock "
@@ -14,6 +15,8 @@ EXPLANATION = (
     "order of the drain (R-SHUTDOWN-SEQ); pid-branch handshake (R-EXIT-HANDSHAKE); no strong reference from the manager "
     "to the executor by escape analysis + heap reachability (R-NO-STRONG-REF); at-exit protocol (R-ATEXIT); plus "
     "R-NULLED / R-MGR-SELF (graceful-shutdown requests after which submitted work never completes: known finding D4; D3 was repaired in /repo). "
+    "Also decided: the reusable factory hands its kill_workers argument to shutdown() as given, so that a graceful request is "
+    "not turned into a forced one on the way (R-KILL-PATH). "
     "Not decided: crash inside the shutdown phase; whether join_thread really joins the feeder."
 )
 
@@ -42,5 +45,6 @@ def run(e, R, tier):
         C.r_feeder,
         L.r_drop_resolves,
         T.r_spawn_site,
+        X.r_kill_path,
     ])
     R.trust("threading._register_atexit hooks run before non-daemon threads are joined; weakref callbacks run when the referent dies")
